@@ -34,6 +34,38 @@ def one(pattern, as_path, shorter, tmp):
     except Exception as e: return 'second run raised %r' % (e,)
     return None
 
+def check_then_run(tmp):
+    """history: check() on a few traces (catching, and re-raising with catch_exceptions=False) and then run() on the same object"""
+    import scared, estraces
+    fails = []; ev = 0
+    n = 12; rng = np.random.default_rng(5)
+    samples = rng.normal(size=(n, 20)).astype('float32'); pt = rng.integers(0, 256, (n, 4)).astype('uint8')
+    for catch in (True, False):
+        for bad_at in (0, 1, 2, 99):
+            ev += 1
+            ths = estraces.read_ths_from_ram(samples=samples, plaintext=pt)
+            st = {'calls': 0, 'checking': True}
+            def f(trace_object):
+                st['calls'] += 1
+                if st['checking']:
+                    if st['calls'] - 1 == bad_at: raise scared.ResynchroError('no')
+                    return trace_object.samples[:] + 1
+                if int(trace_object.plaintext[0]) % 3 == 0: raise scared.ResynchroError('no')
+                return trace_object.samples[:] + 1
+            out = os.path.join(tmp, 'h_%d_%d.ets' % (catch, bad_at))
+            s = scared.Synchronizer(ths, out, f, overwrite=True)
+            try: s.check(nb_traces=4, catch_exceptions=catch)
+            except scared.ResynchroError: pass
+            st['checking'] = False
+            acc = [i for i in range(n) if int(pt[i, 0]) % 3 != 0]
+            try:
+                res = s.run(); r = None
+                if s.processed_counter != n or s.synchronized_counter != len(acc): r = 'counters %s/%s after check()+run(), expected %d/%d' % (s.processed_counter, s.synchronized_counter, n, len(acc))
+                elif len(res) != len(acc) or not np.allclose(res.samples[:], samples[acc] + 1) or not np.array_equal(res.plaintext, pt[acc]): r = 'output after check()+run() is not the accepted traces'
+            except Exception as e: r = 'run after check raises %r' % (e,)
+            if r: fails.append(dict(kind='check_then_run', catch_exceptions=catch, check_fails_at=bad_at, detail=r))
+    return ev, fails
+
 def sweep(maxlen, extra):
     fails = []; ev = 0
     with tempfile.TemporaryDirectory(dir='/dev/shm') as tmp:
@@ -45,6 +77,7 @@ def sweep(maxlen, extra):
             try: r = one(list(p), k % 2 == 1, k % 3 == 0, tmp)
             except Exception as e: r = 'raises %r' % (e,)
             if r: fails.append(dict(kind='pattern', pattern=''.join(p), detail=r))
+        e2, f2 = check_then_run(tmp); ev += e2; fails += f2
     return ev, fails
 
 def replay(case):
@@ -53,7 +86,7 @@ def replay(case):
 
 def bounded(seed, tier):
     ev, fails = sweep(4 if tier == 'quick' else 7, [tuple('r' * 9), tuple('i' * 17), tuple('rrrrrrrra'), tuple('arrrrrrrrrrrrrrrra'), tuple('n' * 5)])
-    return dict(evaluations=ev, failures=len(fails), failing=fails[:5], exhaustive=True, bound='all accept/None/ResynchroError/IndexError patterns of length <= 3, all accept/raise patterns up to length %d, long failure runs; str and Path outputs; returned data shorter or same length' % (4 if tier == 'quick' else 7))
+    return dict(evaluations=ev, failures=len(fails), failing=fails[:5], exhaustive=True, bound='all accept/None/ResynchroError/IndexError patterns of length <= 3, all accept/raise patterns up to length %d, long failure runs; check() (returning / re-raising) followed by run(); str and Path outputs; returned data shorter or same length' % (4 if tier == 'quick' else 7))
 
 if __name__ == '__main__':
     cmd = sys.argv[1]
